@@ -605,10 +605,20 @@ void runPlan(const Plan &plan, pbt::Case &c)
     // borrower protocol: 0 init, 1 calling (through a plain pointer), 2 done
     std::vector<std::unique_ptr<std::atomic<int>>> bstate;
     for (std::size_t i = 0; i < nActors; ++i) bstate.push_back(std::make_unique<std::atomic<int>>(cy.actors[i].borrower ? 0 : 2));
-    std::atomic<int> actorsRunning{static_cast<int>(nActors)};
+    // owners still running (borrowers stay parked until the teardown wakes them, so a
+    // "quiesced" teardown waits for the owners only)
+    int nOwners = 0;
+    for (auto &a : cy.actors)
+      if (!a.borrower) ++nOwners;
+    std::atomic<int> actorsRunning{nOwners};
     std::atomic<bool> go{false};
     std::vector<std::thread> actorThreads;
     const int timeouts[] = {40, 200, 800};
+    // A borrower's final parking call gets a timeout far beyond B: the teardown handshake
+    // is obliged to wake it (shuttingDown + notify for connectSync/flush, the drain's close or
+    // the notify for receiveSync), so if it is still parked after B it was stranded - the
+    // call's own timeout must not be what rescues it.
+    const int kBorrowerTimeoutMs = 120000;
 
     for (std::size_t ai = 0; ai < nActors; ++ai)
     {
@@ -652,7 +662,8 @@ void runPlan(const Plan &plan, pbt::Case &c)
               {
               case SyncBlackHole:
               {
-                auto r = tp->connectSync("127.0.0.1", hole.port, TlsMode::None, std::chrono::milliseconds(timeouts[op.a % 3]));
+                auto r = tp->connectSync("127.0.0.1", hole.port, TlsMode::None,
+                                         std::chrono::milliseconds(viaPlainPointer ? kBorrowerTimeoutMs : timeouts[op.a % 3]));
                 if (r.isOk()) tp->close(r.value());
                 break;
               }
@@ -677,7 +688,7 @@ void runPlan(const Plan &plan, pbt::Case &c)
                 }
                 char buf[256];
                 std::size_t len = sizeof(buf);
-                (void)tp->receiveSync(ownSid, buf, len, std::chrono::milliseconds(timeouts[op.a % 3]));
+                (void)tp->receiveSync(ownSid, buf, len, std::chrono::milliseconds(viaPlainPointer ? kBorrowerTimeoutMs : timeouts[op.a % 3]));
                 break;
               }
               case Flush:
@@ -700,7 +711,11 @@ void runPlan(const Plan &plan, pbt::Case &c)
                 break;
               }
               case CloseOp: (void)tp->close(anySid); break;
-              case AddListenerOp: (void)tp->addListener("127.0.0.1", 0, TlsMode::None); break;
+              case AddListenerOp:
+                // single call, or a burst that spans the teardown (each call is a round trip
+                // through the I/O thread's queue: one of them lands in the drain window)
+                for (int n = op.b % 3 == 0 ? 40 : 1; n > 0; --n) (void)tp->addListener("127.0.0.1", 0, TlsMode::None);
+                break;
               case StatsOp:
               {
                 auto st = tp->getStats();
@@ -750,7 +765,7 @@ void runPlan(const Plan &plan, pbt::Case &c)
             }
           }
           if (ap.borrower) bstate[ai]->store(2);
-          actorsRunning--;
+          else actorsRunning--;
         }));
     }
 
